@@ -242,3 +242,43 @@ func OnceDo(site int, o *sync.Once, f func()) {
 	defer primUpdate(unsafe.Pointer(o), pOnce, 3, 0)
 	o.Do(f)
 }
+
+
+//go:norace
+func selectRequest(site int, ptrs [4]unsafe.Pointer, caps [4]int, n int) int {
+	lock()
+	var prs [4]int32
+	for i := 0; i < n; i++ {
+		prs[i] = findPrim(ptrs[i], pChan, int32(caps[i]))
+	}
+	if s.current < 0 {
+		unlock()
+		panic("simrt: select from a goroutine that does not hold the baton")
+	}
+	t := s.tasks[s.current]
+	t.sel = prs
+	t.nsel = int32(n)
+	unlock()
+	request(rSelect, int32(site), -1)
+	return int(t.selChoice)
+}
+
+// SelectRecv2 replaces a select statement with two receive cases (buffered channels): it returns the index of the
+// case taken and the received value in the slot of that case.
+func SelectRecv2[A, B any](site int, ca <-chan A, cb <-chan B) (idx int, va A, vb B) {
+	if !Active() {
+		select {
+		case va = <-ca:
+			return 0, va, vb
+		case vb = <-cb:
+			return 1, va, vb
+		}
+	}
+	c := selectRequest(site, [4]unsafe.Pointer{chanPtr(ca), chanPtr(cb)}, [4]int{cap(ca), cap(cb)}, 2)
+	if c == 0 {
+		va = <-ca
+	} else {
+		vb = <-cb
+	}
+	return c, va, vb
+}
